@@ -22,6 +22,8 @@ MANIFEST = {
             "models every ConfigSchema default, the push-down of every from_config, padding/truncation and Python truthiness; "
             "every object built from an accepted observation_space section satisfies the invariant the in-space theorems need "
             "(C02_raw_build_ok), so membership holds for everything a scenario can configure (C02_built_run_in_space). "
+            "NMNE (since the F-10 repair): the leaf follows the observed interface's own `nmne` entry, so no state is excluded on "
+            "its account any more - the only state hypotheses left are positive NIC speed / link bandwidth and a user-session-manager. "
             "Environment level: nested or flattened, every observation of an episode is a member of the space observation_space "
             "declares during THAT episode, the space does not change within an episode, and a constant schedule declares one space "
             "(C02_env_*); flattening a member gives a 0/1 vector whose length is a function of the space only. "
